@@ -56,12 +56,29 @@ func (c *vcr) StoreCredential(credential vc.VerifiableCredential, validAt *time.
 		}
 	}
 
-	// verify first
+	// verify first: it must be well-formed for its type (for Nuts credentials: the ID lies in the namespace of the issuer)
+	// and list at most 2 types, as required when issuing and verifying. Otherwise, a stored credential can't be resolved
+	// and its ID can't be taken by the credential it belongs to.
+	if err := validateCredential(credential); err != nil {
+		return err
+	}
 	if err := c.verifier.VerifySignature(credential, validAt); err != nil {
 		return err
 	}
 
 	return c.writeCredential(credential)
+}
+
+// validateCredential checks the content of the credential using the validator for its type.
+// It performs the same checks as the verifier does before looking at revocation, trust, validity period and signature.
+func validateCredential(subject vc.VerifiableCredential) error {
+	if err := credential.FindValidator(subject).Validate(subject); err != nil {
+		return err
+	}
+	if len(subject.Type) > 2 {
+		return errors.New("verifiable credential must list at most 2 types")
+	}
+	return nil
 }
 
 func credentialsEqual(a vc.VerifiableCredential, b vc.VerifiableCredential) bool {
